@@ -387,6 +387,9 @@ func ChildMain(args []string) {
 		for id, p := range o.Panics {
 			out.Results[id] = fmt.Sprintf("PANIC(thread): %v", p)
 		}
+	case "warm", "warmreplay":
+		warmChild(mode, sc, l, args[3:])
+		return
 	case "race": // free-running threads (no scheduler), for the -race build
 		results := make([]string, len(sc.Threads))
 		var wg sync.WaitGroup
@@ -413,6 +416,168 @@ func ChildMain(args []string) {
 	}
 }
 
+// one scheduled execution in this process
+func schedOnce(sc scenario, l *rt.Ledger, prefix []int) (*prefixChooser, []string, sched.Outcome) {
+	cache := &progCache{m: map[common.Location]*runtime.Program{}}
+	ch := &prefixChooser{prefix: prefix}
+	results := make([]string, len(sc.Threads))
+	var bodies []func()
+	for i := range sc.Threads {
+		i := i
+		bodies = append(bodies, func() { results[i] = runThread(sc.Threads[i], i, l, cache) })
+	}
+	o := sched.Run(ch, 200000, bodies...)
+	for i := range ch.points {
+		if ch.points[i].obj != 0 {
+			ch.points[i].Shared = sched.SharedObject(ch.points[i].obj)
+		}
+	}
+	for id, p := range o.Panics {
+		results[id] = fmt.Sprintf("PANIC(thread): %v", p)
+	}
+	return ch, results, o
+}
+
+type warmViolation struct {
+	Choices []int  `json:"choices"`
+	Sig     string `json:"sig"`
+	Detail  string `json:"detail"`
+}
+
+type warmOut struct {
+	Runs       int64           `json:"runs"`
+	Deviating  int64           `json:"deviating"`
+	Complete   bool            `json:"complete"`
+	Violations []warmViolation `json:"violations"`
+	Result     string          `json:"result,omitempty"`
+}
+
+func judgeExecution(sc scenario, base []string, ch *prefixChooser, results []string, o sched.Outcome) (sig, detail string) {
+	switch {
+	case ch.diverged != "":
+		return "", ""
+	case o.Deadlock:
+		return fmt.Sprintf("%s|deadlock|%s", modesOf(sc), strings.Join(o.Blocked, ",")), fmt.Sprintf("deadlock: blocked %v", o.Blocked)
+	case o.Horizon:
+		return fmt.Sprintf("%s|livelock-horizon", modesOf(sc)), "step horizon exceeded"
+	}
+	for i := range base {
+		if results[i] != base[i] {
+			return fmt.Sprintf("%s|thread-result-differs|%s", modesOf(sc), resultClass(results[i])),
+				fmt.Sprintf("thread %d:\n  concurrent: %s\n  sequential: %s", i, trunc(results[i], 600), trunc(base[i], 600))
+		}
+	}
+	return "", ""
+}
+
+// warmChild explores a shard of the schedule tree inside this process: the
+// process-global caches are warm after the first (non-preemptive) execution,
+// everything created per execution (the shared contract's program, types and
+// elaboration, the program cache, pools' modelled contents) is cold each time.
+// args: <bound> <shard> <nshards> <deadlineSeconds> <basefile>   (warm)
+//
+//	<choices> <basefile>                                      (warmreplay)
+func warmChild(mode string, sc scenario, l *rt.Ledger, args []string) {
+	out := warmOut{Complete: true}
+	emit := func() {
+		b, _ := json.Marshal(out)
+		os.Stdout.Write(b)
+		os.Stdout.Write([]byte("\n"))
+	}
+	readBase := func(path string) []string {
+		b, err := os.ReadFile(path)
+		if err != nil {
+			panic(err)
+		}
+		var base []string
+		json.Unmarshal(b, &base)
+		return base
+	}
+	// warm-up: the non-preemptive schedule
+	schedOnce(sc, l, nil)
+	if mode == "warmreplay" {
+		var prefix []int
+		if args[0] != "-" {
+			for _, x := range strings.Split(args[0], ",") {
+				n, _ := strconv.Atoi(x)
+				prefix = append(prefix, n)
+			}
+		}
+		base := readBase(args[1])
+		ch, results, o := schedOnce(sc, l, prefix)
+		sig, detail := judgeExecution(sc, base, ch, results, o)
+		out.Result = sig
+		if sig != "" {
+			out.Violations = append(out.Violations, warmViolation{prefix, sig, detail})
+		}
+		emit()
+		return
+	}
+	bound, _ := strconv.Atoi(args[0])
+	shard, _ := strconv.Atoi(args[1])
+	nshards, _ := strconv.Atoi(args[2])
+	secs, _ := strconv.Atoi(args[3])
+	base := readBase(args[4])
+	deadline := time.Now().Add(time.Duration(secs) * time.Second)
+	stack := [][]int{nil}
+	rootKid := 0
+	for len(stack) > 0 {
+		if time.Now().After(deadline) {
+			out.Complete = false
+			break
+		}
+		prefix := stack[len(stack)-1]
+		stack = stack[:len(stack)-1]
+		ch, results, o := schedOnce(sc, l, prefix)
+		out.Runs++
+		if ch.diverged != "" {
+			out.Violations = append(out.Violations, warmViolation{prefix, "HARNESS-DIVERGED", ch.diverged})
+			continue
+		}
+		if sig, detail := judgeExecution(sc, base, ch, results, o); sig != "" {
+			out.Violations = append(out.Violations, warmViolation{prefix, sig, detail})
+			if o.Deadlock || o.Horizon {
+				// parked goroutines are abandoned; this process keeps going
+			}
+		}
+		dev, acc := 0, 0
+		var kids [][]int
+		for i, p := range ch.points {
+			if i >= len(prefix) {
+				for alt := 1; alt < p.N; alt++ {
+					if acc+p.Cost > bound || !p.Shared {
+						break
+					}
+					if len(prefix) == 0 {
+						// level-1 subtrees are dealt round-robin to the shards
+						rootKid++
+						if rootKid%nshards != shard {
+							continue
+						}
+					}
+					np := make([]int, i+1)
+					for j := 0; j < i; j++ {
+						np[j] = ch.points[j].Alt
+					}
+					np[i] = alt
+					kids = append(kids, np)
+				}
+			}
+			if p.Alt != 0 {
+				acc += p.Cost
+				dev += p.Cost
+			}
+		}
+		if dev > 0 {
+			out.Deviating++
+		}
+		for i := len(kids) - 1; i >= 0; i-- {
+			stack = append(stack, kids[i])
+		}
+	}
+	emit()
+}
+
 // ---------------------------------------------------------------------------
 // parent side
 
@@ -421,6 +586,7 @@ type c36Case struct {
 	Name     string `json:"name"`
 	Choices  []int  `json:"choices"`
 	Race     bool   `json:"race,omitempty"`
+	Warm     bool   `json:"warm,omitempty"`
 }
 
 func runChild(bin string, args ...string) (*childOut, string, error) {
@@ -487,6 +653,7 @@ func runC36(env *mc.Env) {
 	env.R.Set("preemption_bound", bound)
 	var totalRuns, totalPoints atomic.Int64
 	completed := []string{}
+	warmCompleted := []string{}
 	for si := 0; si < nsc; si++ {
 		sc := scs[si]
 		// sequential baselines: each thread alone in a fresh process
@@ -516,7 +683,14 @@ func runC36(env *mc.Env) {
 		} else {
 			break
 		}
+		// warm phase: deeper bound, in-process (process-global caches warm, per-execution objects cold)
+		if wb := bound + 1; !env.Expired() {
+			if warmPhase(env, bin, tmp, si, sc, ledger, base, wb) {
+				warmCompleted = append(warmCompleted, fmt.Sprintf("%s<=%d", sc.Name, wb))
+			}
+		}
 	}
+	env.R.Set("warm_scenarios_completed", warmCompleted)
 	env.R.Set("scenarios_completed", completed)
 	env.R.BoundCompleted(fmt.Sprintf("preemptions<=%d on %d scenarios", bound, len(completed)))
 	env.R.Set("schedule_points_total", totalPoints.Load())
@@ -648,6 +822,74 @@ func oneExecution(env *mc.Env, bin string, si int, sc scenario, ledger string, b
 	return kids
 }
 
+// warmPhase explores scenario si at the given bound inside env.Workers child
+// processes (each explores a shard of the level-1 subtrees in-process).
+func warmPhase(env *mc.Env, bin, tmp string, si int, sc scenario, ledger string, base []string, bound int) bool {
+	basefile := fmt.Sprintf("%s/base.%d.json", tmp, si)
+	b, _ := json.Marshal(base)
+	os.WriteFile(basefile, b, 0o644)
+	secs := int(time.Until(env.Deadline).Seconds()) / 2
+	if secs > mc.Pick(env, 20, 240) {
+		secs = mc.Pick(env, 20, 240)
+	}
+	if secs < 3 {
+		return false
+	}
+	n := env.Workers
+	outs := make([]*warmOut, n)
+	mc.ParallelFor(env, n, func(k int) {
+		cmd := exec.Command(bin, "--child", "warm", strconv.Itoa(si), ledger, strconv.Itoa(bound), strconv.Itoa(k), strconv.Itoa(n), strconv.Itoa(secs), basefile)
+		cmd.Env = append(os.Environ(), "GOMAXPROCS=2")
+		var so, se bytes.Buffer
+		cmd.Stdout, cmd.Stderr = &so, &se
+		if err := cmd.Run(); err != nil {
+			env.R.Violation(fmt.Sprintf("%s|warm-child-crash|%s", modesOf(sc), crashClass(se.String())),
+				c36Case{Scenario: si, Name: sc.Name, Warm: true}, fmt.Sprintf("warm explorer shard %d crashed: %v\n%s", k, err, trunc(se.String(), 1500)))
+			return
+		}
+		var o warmOut
+		line := bytes.TrimSpace(so.Bytes())
+		if i := bytes.LastIndexByte(line, '\n'); i >= 0 {
+			line = line[i+1:]
+		}
+		if err := json.Unmarshal(line, &o); err != nil {
+			env.R.HarnessError("warm shard %d: bad output: %v", k, err)
+			return
+		}
+		outs[k] = &o
+	})
+	complete := true
+	var runs, dev int64
+	for _, o := range outs {
+		if o == nil {
+			complete = false
+			continue
+		}
+		runs += o.Runs
+		dev += o.Deviating
+		if !o.Complete {
+			complete = false
+		}
+		for _, v := range o.Violations {
+			if v.Sig == "HARNESS-DIVERGED" {
+				env.R.HarnessError("warm exploration of %s diverged: %s", sc.Name, v.Detail)
+				continue
+			}
+			env.R.Violation("warm|"+v.Sig, c36Case{Scenario: si, Name: sc.Name, Choices: v.Choices, Warm: true}, v.Detail)
+		}
+	}
+	env.R.EvalN(runs)
+	env.R.Transitions.Add(runs)
+	env.R.States.Add(runs)
+	env.R.Add("warm_in_process_executions", runs)
+	env.R.Add("warm_executions_with_deviation", dev)
+	env.R.ClassN("warm:equal-to-sequential", runs)
+	if !complete {
+		env.R.NotExhaustive(fmt.Sprintf("warm phase of %s at bound %d hit its time slice", sc.Name, bound))
+	}
+	return complete
+}
+
 func modesOf(sc scenario) string {
 	var m []string
 	for _, t := range sc.Threads {
@@ -761,6 +1003,26 @@ func replayC36(env *mc.Env, raw json.RawMessage) (bool, string) {
 			return false, "baseline failed: " + err.Error()
 		}
 		base[ti] = o.Results[0]
+	}
+	if c.Warm {
+		basefile := tmp + "/base.json"
+		b, _ := json.Marshal(base)
+		os.WriteFile(basefile, b, 0o644)
+		cmd := exec.Command(bin, "--child", "warmreplay", strconv.Itoa(c.Scenario), ledger, choicesArg(c.Choices), basefile)
+		cmd.Env = append(os.Environ(), "GOMAXPROCS=2")
+		var so, se bytes.Buffer
+		cmd.Stdout, cmd.Stderr = &so, &se
+		if err := cmd.Run(); err != nil {
+			return true, "warm replay child crashed: " + trunc(se.String(), 800)
+		}
+		var o warmOut
+		if err := json.Unmarshal(bytes.TrimSpace(so.Bytes()), &o); err != nil {
+			return false, "bad warm replay output"
+		}
+		if len(o.Violations) > 0 {
+			return true, o.Violations[0].Detail
+		}
+		return false, "warm replay: results equal sequential"
 	}
 	o, stderr, err := runChild(bin, "sched", strconv.Itoa(c.Scenario), ledger, choicesArg(c.Choices))
 	if err != nil {
